@@ -43,6 +43,11 @@ def run(ctx):
     U.rule_punycode(ctx, "R10")
     from .c20 import protocol_language
     protocol_language(ctx, "R11")
+    # the stems variants read the pre-split path / query while the string is re-parsed: a delimiter left raw by the
+    # unescaper ('#', '?', '&') splits differently on the two sides
+    from . import common_quote as Q
+    m_, binds_, params_, sets_ = Q.model(ctx)
+    Q.rule_decode_set(ctx, "R12", m_, params_, sets_)
 
 
 AGREE_HOSTS = ["www.a.com", "WWW.A.COM", "a.com.", "www.a.com.", "m.a.co.uk.", "amp-www.a.com", "www.amp-x.com", "fr.a.com", "fr-FR.a.co.uk", "xn--caf-dma.fr", "caf\u00e9.fr", "b.a.co.uk", "a.com..", "mobile.a.com:8080", "127.0.0.1", "localhost"]
